@@ -35,20 +35,20 @@ TB = ("trusted: numpy/scipy/scikit-learn/joblib/tqdm as installed in /venv; the 
       "the tie/rounding model (tau derived from operand magnitudes, written into the evidence); fits and joblib tasks are atomic w.r.t. each other (no caller threads).")
 checks = [
  check("C01", "c01",
-  "Seeded search over operation-and-fault histories on one or two selector objects (cold fits, warm-start chains in every n_to_select form, threshold stops, FPS index-list initialisation, pickle restart, interleaved objects, public reads between fits, re-parameterised cold refits, continuations that ask for no more than is selected, the caller overwriting its X in place before a cold refit, re-parameterisation through set_params as well as attribute assignment, fits through fit_transform with the caller rescaling the returned array in place, cold refits on larger other data; clock/ARPACK start-vector/ARPACK and LAPACK no-convergence/RNG faults, an ambient joblib configuration, stderr faults that land in the middle of a search because tqdm's redraw timer is simulated too, and KeyboardInterrupt/MemoryError at an arbitrary line of a fit followed by a cold refit of the partially fitted object), all nine selector classes, nine data kinds incl. rank-deficient/duplicated/badly scaled, float32/int64 callers' arrays, n_to_select as int/float/None/numpy scalars/Fraction incl. fractions whose product with n is exactly an integer, and magnitudes whose squares overflow or underflow; after every successful fit all public views of the selection are cross-checked. Sampling, not proof: evidence bounded by the stated sizes.",
+  "Seeded search over operation-and-fault histories on one or two selector objects (cold fits, warm-start chains in every n_to_select form, threshold stops, FPS index-list initialisation, pickle restart, interleaved objects, public reads between fits, re-parameterised cold refits, continuations that ask for no more than is selected, the caller overwriting its X in place before a cold refit, re-parameterisation through set_params as well as attribute assignment, fits through fit_transform with the caller rescaling the returned array in place, cold refits on larger other data and on the same X with other targets; the invariants of the last successful fit are re-checked after a cold refit that fit() rejects before touching anything and after the caller reorders the index array it had passed as initialize; clock/ARPACK start-vector/ARPACK and LAPACK no-convergence/RNG faults, an ambient joblib configuration, stderr faults that land in the middle of a search because tqdm's redraw timer is simulated too, and KeyboardInterrupt/MemoryError at an arbitrary line of a fit followed by a cold refit of the partially fitted object), all nine selector classes, nine data kinds incl. rank-deficient/duplicated/badly scaled, float32/int64 callers' arrays, n_to_select as int/float/None/numpy scalars/Fraction incl. fractions whose product with n is exactly an integer, and magnitudes whose squares overflow or underflow; after every successful fit all public views of the selection are cross-checked. Sampling, not proof: evidence bounded by the stated sizes.",
   TB, "deterministic simulation (hostsim): seeded operation/fault histories + cross-view invariant oracle", "DESIGN 4"),
  check("C06", "c06",
-  "VoronoiFPS is run under a virtual wall clock owned by the simulator (normal, frozen, coarse, backward step, jump, stall, raw scripts and an adversarial script that forces each of the 7 bisection comparisons, i.e. every one of the 128 calibration outcomes on demand) with warm-start chains (also with the switching point re-parameterised between two fits), cold refits of the same object (also after a fit that crashed at an arbitrary line, and after the caller overwrote X in place), pickle restarts, unreached absolute score thresholds, searches of up to 140 samples, data at length scales 2^-30..2^20, initial indices counted from either end and the default random_state under a different ambient RNG state per lane; the lanes (2-4 objects on the same data under different clocks and ambient joblib configurations) are interleaved in part of the runs, so one object's fits happen between two fits of another's chain; a shallow copy of the fitted selector is refitted between two fits of the original; a cold refit that the library rejects (invalid parameter, no fault) is followed by a continuation; a few searches cross 256 selections; with initialize='random' the first selection must be the one draw of the generator random_state denotes (integer seed, the caller's instance, or the ambient generator, all owned by the simulator); all 128 forced calibration outcomes on sampled inputs in both tiers; after every greedy step the choice and the whole distance table are compared with a brute-force O(n^2) farthest-point reference (tie aware), identical histories under different clocks are compared, and a cap on clock reads bounds the calibration's liveness.",
+  "VoronoiFPS is run under a virtual wall clock owned by the simulator (normal, frozen, coarse, backward step, jump, stall, raw scripts and an adversarial script that forces each of the 7 bisection comparisons, i.e. every one of the 128 calibration outcomes on demand) with warm-start chains (also with the switching point re-parameterised between two fits), cold refits of the same object (also after a fit that crashed at an arbitrary line, and after the caller overwrote X in place), pickle restarts, unreached absolute score thresholds, searches of up to 140 samples, data at length scales 2^-30..2^20, initial indices counted from either end and the default random_state under a different ambient RNG state per lane; the lanes (2-4 objects on the same data under different clocks and ambient joblib configurations) are interleaved in part of the runs, so one object's fits happen between two fits of another's chain; a shallow copy of the fitted selector is refitted between two fits of the original; a cold refit that the library rejects (invalid parameter, no fault) is followed by a continuation; a few searches cross 256 selections; a re-selected sample is never accepted as a zero-distance tie; with initialize='random' the first selection must be the one draw of the generator random_state denotes (integer seed, the caller's instance, or the ambient generator, all owned by the simulator); all 128 forced calibration outcomes on sampled inputs in both tiers; after every greedy step the choice and the whole distance table are compared with a brute-force O(n^2) farthest-point reference (tie aware), identical histories under different clocks are compared, and a cap on clock reads bounds the calibration's liveness.",
   TB, "deterministic simulation (hostsim): virtual clock fault injection + step-wise brute-force FPS reference model", "DESIGN 3"),
  check("C08", "c08",
   "Warm-start chains (sampled increasing schedules with jumps, every n_to_select form; all 2^(n-1) schedules for n<=6 on sampled inputs in both tiers, n<=7 in thorough), unreached thresholds set mid-chain or at construction, thresholds that only the first fit misses and that are lowered before the continuation, float64 and float32 data in the caller's memory layout (C/F/strided/read-only; tolerances in the working precision), pickle/deepcopy restarts, interleaved objects, public reads between the fits, continuation on an equal-valued copy after the caller reused the fitted buffer, FPS initialised with a selected prefix, warm start on a never-fitted selector and after a first fit that failed before selecting anything (must be rejected), a continuation after a cold refit that the library rejected while the object still reports its selections, a second selector of the class fitted on the first one's buffer after the caller refilled it (reference fits isolated in a forked child), a second cold fit of the same object before the chain continues, a truncated SVD that does not converge inside a CUR fit, under clock/ARPACK/RNG faults and ambient joblib configurations; after every fit the object is compared (sequence, stored data, scores, distance tables) with a history-free twin: the same class cold-fitted in a quiet environment on fresh copies with the memory layout of the history's own cold fit, modulo reference ties.",
   TB, "deterministic simulation (hostsim): seeded warm-start/restart histories vs. history-free twin (differential between histories)", "DESIGN 4"),
  check("C10", "c10",
-  "Ridge2FoldCV is fitted with the joblib backend replaced by a simulated one (tasks executed in seeded order, batched, on pickled copies like a worker process, twice with the first result dropped, or in real threads whose line-level interleaving is decided by the seed; n_jobs in {None,1,2,3}) and with the ambient RNG that draws the folds owned by the simulator; cv_values_, alpha_, best_score_, coef_ and predict are compared with an explicit two-fold Tikhonov / cut-off least-squares model in plain numpy on the folds actually used, identical configurations under different schedules must agree, a refit after the caller overwrote its X/y buffers in place is judged on the new values, a refit after set_params (scorer, grid, alpha type, filter, folds, n_jobs) is judged on the new parameters, an earlier estimator with other fold parameters is fitted on data of the same size, one of the three SVDs may fail to converge (LinAlgError) before a refit, default folds that the implementation did not draw through the observed seam are predicted, and where the assignment is specified (no shuffling or an integer seed) the folds used must be the first split of KFold(2, shuffle, random_state); predict on the buffer the caller refilled after fitting; data exactly rescaled by 2^-30..2^30 with the numerical rank taken relative to the largest singular value; integer-typed grids; folds as index arrays, boolean masks, one-shot generators and KFold objects; float64 and float32 X (rank cut, domain band and tolerances in X's precision). The simulated surface is the task schedule and the RNG; a defect independent of both is found by the reference model, not by fault injection (stated in DESIGN 5.2).",
+  "Ridge2FoldCV is fitted with the joblib backend replaced by a simulated one (tasks executed in seeded order, batched, on pickled copies like a worker process, twice with the first result dropped, or in real threads whose line-level interleaving is decided by the seed; n_jobs in {None,1,2,3}) and with the ambient RNG that draws the folds owned by the simulator; cv_values_, alpha_, best_score_, coef_ and predict are compared with an explicit two-fold Tikhonov / cut-off least-squares model in plain numpy on the folds actually used, identical configurations under different schedules must agree, a refit after the caller overwrote its X/y buffers in place is judged on the new values, a refit after set_params (scorer, grid, alpha type, filter, folds, n_jobs) is judged on the new parameters, an earlier estimator with other fold parameters is fitted on data of the same size, one of the three SVDs may fail to converge (LinAlgError) before a refit, default folds that the implementation did not draw through the observed seam are predicted, and where the assignment is specified (no shuffling or an integer seed) the folds used must be the first split of KFold(2, shuffle, random_state); predict on the buffer the caller refilled after fitting; every estimator's report (private copies) is read again at the end of the trace after the caller refilled its grid array and a shallow copy was refitted on a new batch; data exactly rescaled by 2^-30..2^30 with the numerical rank taken relative to the largest singular value; integer-typed grids; folds as index arrays, boolean masks, one-shot generators and KFold objects; float64 and float32 X (rank cut, domain band and tolerances in X's precision). The simulated surface is the task schedule and the RNG; a defect independent of both is found by the reference model, not by fault injection (stated in DESIGN 5.2).",
   TB + " Rank decisions use LAPACK singular values; traces with a singular value within a factor 3 of the documented cut are not judged.",
   "deterministic simulation (hostsim): simulated joblib schedule + owned RNG, explicit two-fold reference model", "DESIGN 5.2"),
  check("C09", "c09",
-  "A simulated host process around every public estimator class and function: caller arrays live on a snapshotted heap (C, F, strided view in a canary-guarded buffer, read-only, read-only memmap) and are byte-compared after every event - including after KeyboardInterrupt/MemoryError injected at an arbitrary skmatter line and after stderr faults - and for sampled calls at EVERY line event of the call (crash-point enumeration) - so a modify-then-restore pattern is visible; get_params is compared after every fit under every clock; two- and three-step refit histories (other shape, with/without y, weighted/unweighted, the caller's buffer overwritten in place, reads in between, pickle restart, re-parameterisation by set_params/setattr between the fits; float64/float32/int64 inputs; index-valued parameters counted from either end) are compared attribute by attribute and read by read with a fresh twin that performs bit-identical arithmetic (same memory layout, same RNG/clock/ARPACK scripts); the same call is repeated under a different clock, ambient RNG, ARPACK start vectors, joblib schedule; an ARPACK or dense LAPACK call that does not converge inside fit (PCovR/KernelPCovR, CUR, PCov-CUR, OrthogonalRegression, Ridge2FoldCV, SparseKernelCenterer; PCovR's LinAlgError fallback is thereby exercised) is followed by reads and a refit; np.seterr / sklearn.set_config must be unchanged after every call; estimator-valued hyper-parameters must not be fitted in place; Ridge2FoldCV tasks also as seeded shared-memory threads; writable memory maps and ndarray subclasses as caller storage; results of the metric functions kept as private copies and compared after an estimator using the same metric was fitted on the same points; another object's dict-valued parameter edited in place between two repetitions; hyper-parameters of estimator objects handed to the metric functions unchanged after the call, also when a local fit fails; parameters hidden from get_params included; the same read is repeated on the same fitted object after other reads, after another object of the class was fitted, after a pickle round trip and after the caller reused the arrays it had passed to fit; fit returns self; fit_transform equals fit().transform().",
+  "A simulated host process around every public estimator class and function: caller arrays live on a snapshotted heap (C, F, strided view in a canary-guarded buffer, read-only, read-only memmap) and are byte-compared after every event - including after KeyboardInterrupt/MemoryError injected at an arbitrary skmatter line and after stderr faults - and for sampled calls at EVERY line event of the call (crash-point enumeration) - so a modify-then-restore pattern is visible; get_params is compared after every fit under every clock; two- and three-step refit histories (other shape, with/without y, weighted/unweighted, the caller's buffer overwritten in place, reads in between, pickle restart, re-parameterisation by set_params/setattr between the fits; float64/float32/int64 inputs; index-valued parameters counted from either end) are compared attribute by attribute and read by read with a fresh twin that performs bit-identical arithmetic (same memory layout, same RNG/clock/ARPACK scripts); the same call is repeated under a different clock, ambient RNG, ARPACK start vectors, joblib schedule; an ARPACK or dense LAPACK call that does not converge inside fit (PCovR/KernelPCovR, CUR, PCov-CUR, OrthogonalRegression, Ridge2FoldCV, SparseKernelCenterer; PCovR's LinAlgError fallback is thereby exercised) is followed by reads and a refit; np.seterr / sklearn.set_config must be unchanged after every call; estimator-valued hyper-parameters must not be fitted in place; Ridge2FoldCV tasks also as seeded shared-memory threads; writable memory maps and ndarray subclasses as caller storage; results of the metric functions kept as private copies and compared after an estimator using the same metric was fitted on the same points; another object's dict-valued parameter edited in place between two repetitions; hyper-parameters of estimator objects handed to the metric functions unchanged after the call, also when a local fit fails; parameters hidden from get_params included; a caller array that comes back read-only counts as modified; SparseKDE re-parameterised onto other descriptors; structures as one 3-D array; the same read is repeated on the same fitted object after other reads, after another object of the class was fitted, after a pickle round trip and after the caller reused the arrays it had passed to fit; fit returns self; fit_transform equals fit().transform().",
   TB + " After an injected fault inside fit only heap integrity and parameter stability are demanded (object retired).",
   "deterministic simulation (hostsim): snapshotted caller heap + crash-point/stderr/clock/RNG/ARPACK/joblib fault injection + history-free twin", "DESIGN 5.1"),
 ]
